@@ -96,7 +96,7 @@ static void pseudo_lqxx(Integer num) {
             break;
         }
 
-        if ((res > 2147483647.49) || (res < -2147483647.49)) {
+        if ((res > 2147483647.49) || (res < -2147483648.49)) {
             ok = False;
             WrError(ErrNum_OverRange);
             break;
